@@ -101,3 +101,56 @@ Example C03_no_stimuli_ex :
     | None => false end)
     [PFifo; PInter true; PInter false; PRandom; PBlockedRandom; PGrouped 1; PGrouped 2] = true.
 Proof. vm_compute. reflexivity. Qed.
+
+From PV Require Import Queue.TieLib gen.QueueStepGen Queue.ProofsTie Queue.ProofsTieC03.
+
+(* ======================================================================================
+   TRANSLATOR TIE (see the same section of Props/C02.v).  gen/QueueStepGen.v is regenerated from psiaudio/queue.py on
+   every run; g_pops is a run of the GENERATED pop_buffer on the object `mk q ev` (model state + notifications so far).
+   A successful generated run is the model's run, so the C03 theorems hold of what the source says now.
+   oracle_ok: the shuffled blocks handed to a blocked-random queue hold indices >= 0.
+   ====================================================================================== *)
+Theorem C03_source_run_is_model_run : forall p es ch pm ns self out,
+  wf_policy p (zlen es) = true -> oracle_ok p pm ->
+  g_pops (mk (qinit p es ch pm) []) ns = GOk self out ->
+  pops all_rep (qinit p es ch pm) ns = Some (o_q self, out, o_ev self).
+Proof. exact source_run_is_model_run. Qed.
+Print Assumptions C03_source_run_is_model_run.
+
+(* C03_policy_order over the generated run *)
+Theorem C03_source_policy_order : forall p es ch pm ns self out,
+  wf_queue p es = true -> forallb progress_entry es = true -> oracle_ok p pm ->
+  forallb (fun n => 0 <=? n) ns = true ->
+  g_pops (mk (qinit p es ch pm) []) ns = GOk self out -> q_empty (o_q self) = true ->
+  let keys := keys_of (o_ev self) in
+  let req := requested_of es in
+  count_trials (o_q self) = 0 /\ count_requested (o_q self) = sumZ req /\
+  match p with
+  | PFifo => keys = fifo_order es
+  | PInter keep => keys = inter_order keep es /\
+                   (if keep then stops_at_first_moment req keys = true else counts_of (zlen es) keys = req)
+  | PRandom => counts_of (zlen es) keys = req
+  | PBlockedRandom => stops_at_first_moment req keys = true /\ is_prefix keys (blocks_order pm) = true
+  | PGrouped gs => stops_at_first_moment req keys = true /\ groups_in_order gs keys = true
+  end.
+Proof. exact source_policy_order. Qed.
+Print Assumptions C03_source_policy_order.
+
+(* C03_after_empty over the generated pop_buffer *)
+Theorem C03_source_after_empty : forall p es ch pm ns self out n,
+  wf_queue p es = true -> oracle_ok p pm -> forallb (fun n => 0 <=? n) ns = true -> 1 <= n ->
+  g_pops (mk (qinit p es ch pm) []) ns = GOk self out -> q_empty (o_q self) = true ->
+  exists self', g_pop_buffer (pop_fuel (o_q self) n) self n true = GOk self' (repeat OZero (Z.to_nat n)) /\
+    o_ev self' = o_ev self ++ [EEmpty] /\
+    q_empty (o_q self') = true /\ count_trials (o_q self') = 0 /\ count_requested (o_q self') = count_requested (o_q self).
+Proof. exact source_after_empty. Qed.
+Print Assumptions C03_source_after_empty.
+
+Example C03_source_ex :
+  let es := [mk_entry 2 1 KArray [0] true; mk_entry 1 2 KGen [1] true] in
+  wf_queue (PInter true) es = true /\ forallb progress_entry es = true /\ oracle_ok (PInter true) [] /\
+  match g_pops (mk (qinit (PInter true) es [] []) []) [3; 20] with
+  | GOk self out => q_empty (o_q self) && eqb_listZ (keys_of (o_ev self)) [0; 1; 0]
+  | GRaise _ _ => false
+  end = true.
+Proof. exact source_c03_ex. Qed.
